@@ -129,7 +129,7 @@ def _worker_main():  # pragma: no cover - runs in the subprocess
         kind = case["kind"]
         ratios = [p / q for p, q in case["ratios"]]
         kw = dict(acs_region=tuple(case["a"]), keep_acs=bool(case["keep"]), use_seed=bool(case["use_seed"]),
-                  kspace_key="masked_kspace")
+                  kspace_key=case.get("kkey", "masked_kspace"))
         if case["level"] == "pipeline":
             from direct.data.mri_transforms import TransformsType, build_mri_transforms
             from direct.data.transforms import fft2, ifft2
@@ -185,18 +185,18 @@ def _worker_main():  # pragma: no cover - runs in the subprocess
         else:
             ks = [torch.tensor(k, dtype=torch.float32).reshape(C, H, W, 2) for k in case["kspace"]]
             if case["level"] == "forward":
-                sample = {"sampling_mask": torch.stack(masks), "masked_kspace": torch.stack(ks),
+                sample = {"sampling_mask": torch.stack(masks), case.get("kkey", "masked_kspace"): torch.stack(ks),
                           "filename": list(case["filename"]), "slice_no": list(case["slice_no"])}
                 if acss is not None:
                     sample["acs_mask"] = torch.stack(acss)
             else:
-                sample = {"sampling_mask": masks[0], "masked_kspace": ks[0], "filename": case["filename"][0],
+                sample = {"sampling_mask": masks[0], case.get("kkey", "masked_kspace"): ks[0], "filename": case["filename"][0],
                           "slice_no": case["slice_no"][0]}
                 if acss is not None:
                     sample["acs_mask"] = acss[0]
             out = call(sample)
             im, tm = out["input_sampling_mask"], out["target_sampling_mask"]
-            ik, tk = out["input_masked_kspace"], out["target_masked_kspace"]
+            ik, tk = out["input_" + case.get("kkey", "masked_kspace")], out["target_" + case.get("kkey", "masked_kspace")]
             if case["level"] == "pipeline":
                 im, tm, ik, tk = im[None], tm[None], ik[None], tk[None]
             res["shape"] = [list(im.shape), list(tm.shape), list(ik.shape), list(tk.shape)]
@@ -292,7 +292,10 @@ def _worker_main():  # pragma: no cover - runs in the subprocess
             m = torch.tensor(case["masks"][b], dtype=torch.bool).reshape(mshape)
             k = torch.tensor(case["kspace"][b], dtype=torch.float32).reshape(kshape)
             sens = torch.zeros(kshape)
-            sens[..., 0] = 1.0
+            if str(case.get("engine", "")).startswith("vsharp"):
+                sens[0, ..., 0] = 1.0      # unit-norm maps (the engine renormalises them): all signal in coil 0
+            else:
+                sens[..., 0] = 1.0
             sample = {"kspace": k.clone(), "masked_kspace": torch.where(m, k, torch.zeros(1)), "sampling_mask": m.clone(),
                       "sensitivity_map": sens, "filename": case["filename"][b], "slice_no": case["slice_no"][b],
                       "scaling_factor": torch.tensor(1.0)}
@@ -482,7 +485,7 @@ def _worker_main():  # pragma: no cover - runs in the subprocess
                     out[f"module {mod.__name__}.{k}"] = _sig(v)
         return out
 
-    def hist_sample(case, smps, dims, batched):
+    def hist_sample(case, smps, dims, batched, kkey="masked_kspace"):
         H, W, C, Sl = case["nrow"], case["ncol"], case["C"], case.get("S", 1)
         mshape = (1, 1, H, W, 1) if dims == 3 else (1, H, W, 1)
         kshape = (C, Sl, H, W, 2) if dims == 3 else (C * Sl, H, W, 2)
@@ -490,29 +493,29 @@ def _worker_main():  # pragma: no cover - runs in the subprocess
         ks = [torch.tensor(s["kspace"], dtype=torch.float32).reshape(kshape) for s in smps]
         ac = [torch.tensor(s["acs"], dtype=torch.bool).reshape(mshape) for s in smps] if smps[0].get("acs") is not None else None
         if batched:
-            sample = {"sampling_mask": torch.stack(ms), "masked_kspace": torch.stack(ks),
+            sample = {"sampling_mask": torch.stack(ms), kkey: torch.stack(ks),
                       "filename": [s["filename"] for s in smps], "slice_no": [s["slice_no"] for s in smps]}
             if ac is not None:
                 sample["acs_mask"] = torch.stack(ac)
         else:
-            sample = {"sampling_mask": ms[0], "masked_kspace": ks[0], "filename": smps[0]["filename"],
+            sample = {"sampling_mask": ms[0], kkey: ks[0], "filename": smps[0]["filename"],
                       "slice_no": smps[0]["slice_no"]}
             if ac is not None:
                 sample["acs_mask"] = ac[0]
         return sample, mshape, kshape
 
-    def hist_call(call, sp, case, smps, dims, batched, perturb):
+    def hist_call(call, sp, case, smps, dims, batched, perturb, kkey="masked_kspace"):
         np.random.seed(perturb % (2 ** 31))
         torch.manual_seed(perturb)
         libc.srand(perturb % (2 ** 31))
         sp.rng.log = []
         del calls[:]
-        sample, mshape, kshape = hist_sample(case, smps, dims, batched)
+        sample, mshape, kshape = hist_sample(case, smps, dims, batched, kkey)
         r = {"n": len(smps)}
         try:
             out = (sp if batched else call)(sample)
             im, tm = out["input_sampling_mask"], out["target_sampling_mask"]
-            ik, tk = out["input_masked_kspace"], out["target_masked_kspace"]
+            ik, tk = out["input_" + kkey], out["target_" + kkey]
             if not batched:
                 im, tm, ik, tk = im[None], tm[None], ik[None], tk[None]
             r["shape"] = [list(im.shape), list(tm.shape), list(ik.shape), list(tk.shape)]
@@ -545,7 +548,8 @@ def _worker_main():  # pragma: no cover - runs in the subprocess
             icfg = case["insts"][st["inst"]]
             smps = [case["pool"][j] for j in st["samples"]]
             batched = bool(st.get("batched", True)) or icfg.get("via") != "pipeline"
-            r = hist_call(call, sp, case, smps, st.get("dims", 2), batched, p0 + 7919 * n)
+            kkey = icfg.get("kkey", "masked_kspace")
+            r = hist_call(call, sp, case, smps, st.get("dims", 2), batched, p0 + 7919 * n, kkey)
             if icfg["kind"] == "half" and icfg.get("dir", "").startswith("diagonal"):
                 r["xs"] = [list(float(v).as_integer_ratio()) for v in torch.linspace(-1, 1, case["nrow"]).tolist()]
                 r["ys"] = [list(float(v).as_integer_ratio()) for v in torch.linspace(-1, 1, case["ncol"]).tolist()]
@@ -554,7 +558,7 @@ def _worker_main():  # pragma: no cover - runs in the subprocess
             if icfg["use_seed"] or icfg["kind"] == "half":
                 for s in smps:
                     fc, fs = mk(icfg)
-                    fr = hist_call(fc, fs, case, [s], st.get("dims", 2), True, p0 + 104729 * n + 1)
+                    fr = hist_call(fc, fs, case, [s], st.get("dims", 2), True, p0 + 104729 * n + 1, kkey)
                     if not fr["ok"]:
                         fresh = {"ok": False, "err": fr["err"], "msg": fr.get("msg")}
                         break
@@ -1045,6 +1049,8 @@ def _gen_case(rng, kind: str, level: str) -> dict:
             "use_seed": int(use_seed), "perturb": rng.randrange(1, 10 ** 6), "twice": 1, "std": 3.0}
     if kind == "half":
         case["dir"] = rng.choice(DIRS)
+    if level == "forward" and rng.random() < 0.25:
+        case["kkey"] = "kspace"          # rarely used option: another k-space key
     if level == "split":
         if use_seed:
             s = _name(rng) + str(rng.randrange(40))
@@ -1103,7 +1109,7 @@ def _gen_engine_case(rng, kind: str, dims: int, level: str = "engine") -> dict:
         # the vSHARP SSL / JSSL engines re-implement the training step: image-domain prediction, the same for every coil
         case["engine"] = rng.choice(["vsharp_ssl", "vsharp_jssl"])
         per = H * W * 2
-        case["pred"] = [p[:per] * C for p in case["pred"]]
+        case["pred"] = [p[:per] + [0] * (per * (C - 1)) for p in case["pred"]]
     if level == "fullpipe":
         case["nrow"], case["ncol"], case["B"] = rng.choice([10, 12, 13]), rng.choice([12, 15, 16]), 1
         for k in ("masks", "acs", "kspace", "pred"):
@@ -1204,6 +1210,8 @@ def _gen_inst(rng, kind: str, keep=None, via=None) -> dict:
          "via": via or rng.choice(["module", "module", "pipeline"])}
     if kind == "half":
         d["dir"], d["ratios"] = rng.choice(DIRS), [(1, 2)]
+    if d["via"] == "module" and rng.random() < 0.25:
+        d["kkey"] = "kspace"
     return d
 
 
@@ -1418,7 +1426,7 @@ def _histograms(ctx, case, res):
             f"batch/{case['B']}", f"rows/{'odd' if H % 2 else 'even'}-cols/{'odd' if W % 2 else 'even'}",
             f"size/{'6-12' if max(H, W) <= 13 else '13-24' if max(H, W) <= 24 else '25-40'}",
             f"acs_mask/{'given' if case['acs'] else 'none'}", f"outcome/{'ok' if res.get('ok') else res.get('err')}",
-            f"data/{case.get('dims', 2)}d"]
+            f"data/{case.get('dims', 2)}d", f"kspace_key/{case.get('kkey', 'masked_kspace')}"]
     if case["kind"] != "half":
         keys += [f"ratio/{p}:{q}" for p, q in case["ratios"][:1]] + [f"ratios/{len(case['ratios'])}"]
     for k in keys:
@@ -1781,6 +1789,16 @@ def _fixed_cases():
     one[37] = 1
     out.append(dict(base, kind="gauss", a=[0, 0], ratios=[(1, 20)], masks=[one], mtype="nearly_empty"))
     out.append(dict(base, kind="uniform", a=[0, 0], ratios=[(1, 20)], masks=[one], mtype="nearly_empty"))
+    # keep_acs edge values: empty ACS mask, ACS mask = whole sampling mask (nothing left to split), ACS outside the mask
+    for kind in ("gauss", "uniform", "half"):
+        extra = {"dir": "diagonal_left"} if kind == "half" else {}
+        out.append(dict(base, kind=kind, keep=1, acs=[[0] * 100], a=[0, 0], ratios=[(2, 5)], **extra))
+        out.append(dict(base, kind=kind, keep=1, acs=[list(m10)], a=[4, 4], ratios=[(2, 5)], **extra))
+        out.append(dict(base, kind=kind, keep=1, acs=[[1 - v for v in m10]], a=[0, 0], ratios=[(1, 2)], **extra))
+    # odd protected regions on odd / even axes, region = one row
+    for a in ([1, 1], [3, 5], [1, 10], [9, 9]):
+        out.append(dict(base, kind="uniform", a=a, ratios=[(1, 2)], nrow=9, ncol=10, masks=[[1] * 90], mtype="full"))
+        out.append(dict(base, kind="gauss", a=a, ratios=[(1, 2)], nrow=9, ncol=10, masks=[[1] * 90], mtype="full"))
     for d in DIRS:
         out.append(dict(base, kind="half", a=[4, 4], ratios=[(1, 2)], dir=d, masks=[[1] * 100], mtype="full"))
         out.append(dict(base, kind="half", a=[0, 0], ratios=[(1, 2)], dir=d, nrow=7, ncol=12, masks=[[1] * 84], mtype="full"))
